@@ -265,6 +265,34 @@ def run(ctx, chk):
                            fmt(payload_phc)[:70], len(reads), '' if reads and derived else
                            ' -- the value is not read from the device for this report (a value kept from an earlier poll is not the '
                            "PHC's error bound when this report was made)"))
+            # P10: what is attached as the PHC error bound is the attribute itself: the whole file, parsed as a decimal, taken
+            # only when the parse succeeded (a bounded read can cut the text short; `unwrap_or(_default)` turns an unreadable
+            # value into a number, i.e. uses the report as a measurement although its PHC error bound could not be read)
+            if use_phc and not (psi.is_int_const(payload_phc) and payload_phc[1] == 0):
+                parses = [y for y in psi.walk(payload_phc) if y[0] == 't' and y[1] == 'call' and
+                          y[2][0].split('::')[-1] in ('parse', 'from_str', 'from_str_radix')]
+                ok_take = False
+                how = fmt(payload_phc)[:90]
+                if len(parses) == 1:
+                    x = payload_phc
+                    while x[0] == 't' and x[1] in ('cast', 'conv') and x[2]:
+                        x = x[2][0]
+                    if x[0] == 't' and x[1] == 'call' and x[2][0].split('::')[-1] in ('expect', 'unwrap') and len(x[2]) > 2 and x[2][2] == parses[0]:
+                        ok_take = True
+                    if x[0] == 't' and x[1] == 'field' and x[2][0][0] == 't' and x[2][0][1] == 'as' and x[2][0][2][0] == parses[0] and x[2][0][2][1] == 'Ok':
+                        ok_take = True
+                chk.ob('C13.P10', 'data:phc-bound-taken-only-from-a-successful-parse', ok_take, p.where[2],
+                       'PHC error bound attached to the report: %s%s' % (how, '' if ok_take else
+                       ' -- not the checked result of one parse of the attribute: an unreadable value would still be used'))
+                pn = parses[0][2][1] if parses and isinstance(parses[0][2][1], int) else None
+                whole = [n for n, name, ef in info['calls'] if pn is not None and qn < n < pn and
+                         (name.endswith(('fs::read_to_string', 'fs::read')) or name.split('::')[-1] in ('read_to_string', 'read_to_end'))]
+                bounded = [(n, name) for n, name, ef in info['calls'] if pn is not None and qn < n < pn and
+                           name.split('::')[-1] in ('read', 'read_exact', 'pread', 'read_at', 'read_exact_at', 'read_vectored', 'take') and
+                           ('io::Read' in name or name.startswith(('libc::', 'nix::')) or 'File' in name)]
+                chk.ob('C13.P10', 'data:phc-attribute-read-whole', bool(whole) and not bounded, p.where[2],
+                       'the parsed text comes from %s%s' % ([info['calls'][0][1]] and [nm for n_, nm, e_ in info['calls'] if n_ in whole] or 'no whole-file read',
+                       '' if whole and not bounded else ' (bounded reads: %s) -- a value longer than the buffer is cut short and parsed as a smaller number' % [nm for _, nm in bounded]))
         key = (reply, use_phc if reply == 'tracking' else None, sysfs, info['grace'] if (reply == 'none' or sysfs == 'err') else None)
         rows.setdefault(key, set()).add((kind, 'zero' if (payload_phc is not None and psi.is_int_const(payload_phc) and payload_phc[1] == 0)
                                          else 'read' if payload_phc is not None else None))
